@@ -25,7 +25,7 @@
 (*   DecT(T, bs, lo, hi)     typed decoder of the first value in a window  *)
 (*   WF(T, v)                v is a value of type T (item-tree form)       *)
 (*   Split(bs), SplitString(bs), SplitList(bs), SplitUint64(bs),           *)
-(*   CountValues(bs)         the raw helpers as operators on HdrLax        *)
+(*   CountValues(bs), ListIter(bs)   the raw helpers as operators on HdrLax *)
 (*   type descriptors T:  TUint(n) TBig TU256 TBool TBytes TArr(n)         *)
 (*        TList(e) TLArr(n,e) TStruct(fs) TNil(e,ek) TRaw TAny             *)
 (*                                                                         *)
@@ -259,6 +259,18 @@ CountFrom(bs, lo, cnt) ==
        IF ~hd.ok THEN Rej({hd.c}) ELSE CountFrom(bs, lo + hd.h + hd.p, cnt + 1)
 CountValues(bs) == CountFrom(bs, 1, 0)
 
+(* rlp.NewListIterator / SplitListValues: the encodings of the elements of a list, headers  *)
+(* only (strict); iteration yields the well-formed prefix and then the error class c          *)
+RECURSIVE ElemsFrom(_, _, _)
+ElemsFrom(bs, lo, acc) ==
+  IF lo > Len(bs) THEN [elems |-> acc, c |-> {}]
+  ELSE LET hd == HdrAt(bs, lo, Len(bs)) IN
+       IF ~hd.ok THEN [elems |-> acc, c |-> {hd.c}]
+       ELSE ElemsFrom(bs, lo + hd.h + hd.p, Append(acc, SubSeq(bs, lo, lo + hd.h + hd.p - 1)))
+ListIter(bs) == LET s == SplitList(bs) IN
+                IF ~s.ok THEN s
+                ELSE LET e == ElemsFrom(s.content, 1, <<>>) IN [ok |-> TRUE, elems |-> e.elems, c |-> e.c]
+
 (* ------------------------- laws (checked by MCRLP) --------------------- *)
 (* canonical form: whatever is accepted for T re-encodes to the input *)
 CanonicalFor(T, bs) == LET r == Top(T, bs) IN r.ok => (Enc(r.v) = bs /\ WF(T, r.v))
@@ -274,4 +286,8 @@ SplitAgrees(bs) ==
   /\ (~s.ok /\ s.c = {"canon"} => ~f.ok /\ f.c = {"canon"})
   /\ (~s.ok => ~f.ok /\ s.c \subseteq f.c)
   /\ (s.ok => LET c == CountValues(bs) IN c.ok => c.n >= 1)
+  (* the iterator sees exactly the elements of a well-formed list *)
+  /\ (f.ok /\ f.v.k = "l" => LET it == ListIter(bs) IN
+         it.ok /\ it.c = {} /\ Len(it.elems) = Len(f.v.xs)
+         /\ \A i \in 1..Len(it.elems) : Dec(it.elems[i]).ok /\ Dec(it.elems[i]).v = f.v.xs[i])
 =============================================================================
